@@ -871,6 +871,14 @@ def explore(ctx, drv):
         st["call"]["id"] = rid
         st["enc"] = gen_enc(rng, len(st["notifs"]) + 1)
         items.append(({"steps": [st]}, "id-shape"))
+    # a LONG session: more notifications than any bounded side buffer of a carrier holds (the stdio client keeps a
+    # 100-entry notification stream that callers of stdio_client() never see, let alone drain)
+    for n_steps in (36, 60):
+        conv = gen_conversation(rng, n_steps, with_init=True)
+        for st in conv["steps"]:
+            st["notifs"] = [gen_notif(rng) for _ in range(3)]
+            st["enc"] = gen_enc(rng, 4)
+        items.append((conv, "long-session"))
     # valid JSON-RPC outside MCP: a result that is not a JSON object (the refuted half of C15_decoders_agree)
     for res_ in (None, 5, "s", [1, None], True):
         st = gen_step(rng, "raw")
